@@ -193,6 +193,11 @@ func histCatalogue() []hprog {
 		// a generator, a bystander that is up to date, and a consumer of the generator's glob match, all independent
 		{Name: "P21-generator-bystander-consumer", Tasks: []htask{{Name: "ta", EffFile: 2, EffVal: "gen"}, {Name: "ty", Lits: []string{"y.txt"}}, {Name: "tb", Globs: []string{"*.src"}}},
 			Files: []hfile{globf("x.src", "v0"), globf("g.src", absent, "gen"), globf("y.txt", "v0")}},
+		// a generator that declares one output and also writes an undeclared file, into a directory whose glob already matches
+		{Name: "P22-undeclared-file-beside-declared-output", ReqMax: 1, Tasks: []htask{{Name: "ta", Lits: []string{"seed.txt"}, EffFile: 2, EffVal: "gen", Outs: []string{"gen/api.c"}}, {Name: "tb", Deps: []string{"ta"}, Globs: []string{"include/*.h"}}},
+			Files: []hfile{lit("seed.txt"), globf("include/api.h", absent, "gen"), globf("include/old.h", "v0")}},
+		// task names that a cache file might use for its own bookkeeping
+		{Name: "P23-bookkeeping-names", Tasks: []htask{{Name: "version", Lits: []string{"a.txt"}}, {Name: "cache", Lits: []string{"a.txt"}}}, Files: []hfile{lit("a.txt")}},
 		{Name: "P8-three-tasks", Tasks: []htask{{Name: "ta", Lits: []string{"a.txt"}}, {Name: "tb", Lits: []string{"b.txt"}}, {Name: "tc", Deps: []string{"ta", "tb"}}}, Files: []hfile{lit("a.txt"), lit("b.txt")}},
 	}
 }
